@@ -14,7 +14,9 @@ MOD = __name__
 
 RULE = ("Hypothesis script bodies (lines from a pool of protocol look-alikes - OK, NO \"x\", BYE, {5}, {5+}, \"a\" ACTIVE - empty, "
         "text, non-ASCII, very long; LF/CRLF/mixed endings; with/without final newline) and name sets (0-5 names incl. ACTIVE, OK, "
-        "{3}, quotes, backslashes, spaces, non-ASCII; any or no active one), each served in EVERY encoding RFC 5804 permits "
+        "{3}, quotes, backslashes, spaces, non-ASCII, non-NFC text, status words in other case; any or no active one), plus listings of 400 names "
+        "and scripts of 700 multi-byte lines shifted byte by byte over 24 offsets (every alignment of line breaks and multi-byte characters with the "
+        "client's read blocks), each served in EVERY encoding RFC 5804 permits "
         "(quoted where representable, literal) with varying status lines; oracle: getscript lines == stored lines (line endings "
         "and trailing blank lines ignored), listscripts == (active, others in served order); a following sentinel operation "
         "succeeds. Non-trivial = a line or name is a protocol look-alike, needs escaping or is sent as literal; distinct by "
@@ -127,7 +129,42 @@ def worker(arg):
     return col
 
 
+def large_cases():
+    """Data far larger than the client's read size, shifted byte by byte so that every
+    line break and every character of a multi-byte sequence falls on every position
+    relative to the boundaries of the blocks the client reads."""
+    for shift in range(0, 24):
+        yield ("listing", shift, 400, "quoted")
+        yield ("listing", shift, 400, "literal")
+    for shift in range(0, 24):
+        yield ("body", shift, 700, None)
+
+
+def large_worker(chunk):
+    col = core.Collector()
+    okl = wire.status_line(b"OK", None, b"ok")
+    for kind, shift, n, form in chunk:
+        if kind == "listing":
+            names = [b"f" * (shift + 1)] + [("script-%03d-\u00e9\u20ac" % i).encode("utf-8") for i in range(n)]
+            active = names[n // 2]
+            fails = check_listing(names, active, [form] * len(names), okl)
+            small = {"kind": "large-listing", "shift": shift, "n": n, "form": form}
+        else:
+            lines = [b"#" + b"s" * shift] + [("# line %04d \u00e9\u20ac\U0001F600" % i).encode("utf-8") for i in range(n)]
+            body = b"\r\n".join(lines) + b"\r\n"
+            fails = check_body(body, "literal", okl)
+            small = {"kind": "large-body", "shift": shift, "n": n}
+        col.case(key=repr(small), nontrivial=True, classes=["kind:large-" + kind], sample=small if shift == 3 else None)
+        for bk, d in fails:
+            d = {k: (v if len(repr(v)) < 400 else repr(v)[:400] + "...") for k, v in d.items()}
+            col.fail(bk + "|large", dict(small), d, size=shift)
+    return col
+
+
 def replay(case):
+    if case["kind"].startswith("large-"):
+        col = large_worker([("listing" if case["kind"] == "large-listing" else "body", case["shift"], case["n"], case.get("form"))])
+        return [(b, f["detail"]) for b, f in col.fails.items()]
     if case["kind"] == "body":
         return check_body(case["body"], case["form"], case["status"])
     return check_listing(case["names"], case["active"], case["forms"], case["status"])
@@ -136,7 +173,9 @@ def replay(case):
 def main(tier, seed, t0):
     quick = tier == "quick"
     col = core.run_shards(worker, [(seed * 1000 + 1700 + k, 600 if quick else 8000) for k in range(16)])
-    need = ["kind:body", "kind:listing", "form:quoted", "form:literal", "body:empty", "body:no-final-newline", "body:status-lookalike",
+    lc = list(large_cases())
+    col.merge(core.run_shards(large_worker, [lc[i::16] for i in range(16)]))
+    need = ["kind:large-listing", "kind:large-body", "kind:body", "kind:listing", "form:quoted", "form:literal", "body:empty", "body:no-final-newline", "body:status-lookalike",
             "body:literal-lookalike", "active:quoted", "active:literal", "name:needs-escaping", "name:lookalike"]
     missing = [c for c in need if not col.classes.get(c)]
     if missing:
